@@ -137,7 +137,7 @@ func compType(name string, cfg *StackCfg) string {
 		case "Requester":
 			return "requester"
 		case "Cache":
-			if cfg.Kind == "wb" {
+			if cfg.Kind == "wb" || (cfg.Kind == "rob" && cfg.Lower != "wt") {
 				return "writeback"
 			}
 			return "writethroughcache"
